@@ -274,6 +274,10 @@ func runOnce(run int, cfg config, rec *recorder, cutAfter int64, found func(sig,
 	for c := 1; c <= cfg.Chans; c++ {
 		plans[c] = plan{clientCloses: rng.Intn(2) == 0, withPayload: rng.Intn(2) == 0,
 			early: cfg.EarlyEnd > 0 && c%cfg.EarlyEnd == 0, nC: 1 + rng.Intn(cfg.Msgs), nS: rng.Intn(cfg.Msgs + 1)}
+		if plans[c].clientCloses && plans[c].withPayload && rng.Intn(3) == 0 {
+			// one-shot channel: SendAndClose with a payload is the very first operation (open and close in one batch)
+			plans[c].nC = 0
+		}
 	}
 	var hwg sync.WaitGroup
 	var started, opened atomic.Int32
